@@ -158,10 +158,31 @@ def r1_canonical(facts, rep):
         rep.ob("C02-R1", "Compound::from_iter:filters-zero", good, "from_iter inserts only entries whose power was compared non-zero", fi.site())
     cp = facts.fn("compound::Compound::pow")
     if cp is not None:
-        ins = flow.calls_named(cp, lambda n: n.endswith("BTreeMap::<K, V, A>::insert"))
-        zs = zero_switches(cp)
-        good = bool(ins) and all(any(ot is not None and i[0] in (cp.cfg.blocks_only_via_edge(sw, ot) | {ot}) for sw, zt, ot, cmpd in zs) for i in ins)
-        rep.ob("C02-R1", "Compound::pow:filters-zero", good, "Compound::pow inserts only entries whose power was compared non-zero", cp.site())
+        # summary of Compound::pow (helpers and adaptors followed): every entry that reaches the new map carries a power
+        # that was compared with 0 and found different on that path
+        from . import unitops as U_
+        res = U_.compound_pow_summary(facts)
+        bad = []
+        n_ins = 0
+        for r in res or []:
+            if r["kind"] != "ret":
+                continue
+            pcs = [(p_, b_) for p_, b_ in r["pc"]]
+            for e in r["log"]:
+                if e[0] != "insert":
+                    continue
+                n_ins += 1
+                stv = e[3]
+                pw = stv.field(0) if isinstance(stv, Agg) and stv.path == "compound::State" else None
+                nonzero = False
+                for p_, b_ in pcs:
+                    if isinstance(p_, T) and p_.op in ("Eq", "Ne", "==") and len(p_.args) == 2 and pw in p_.args and any(
+                            (isinstance(a_, Const) and a_.v == 0) or a_ == K(0) for a_ in p_.args):
+                        nonzero = nonzero or (p_.op == "Ne" and b_ is True) or (p_.op in ("Eq", "==") and b_ is False)
+                if not nonzero:
+                    bad.append("inserts a power %r that was not compared non-zero (path %s)" % (pw, "; ".join("%r=%s" % x for x in pcs)[:200]))
+        rep.ob("C02-R1", "Compound::pow:filters-zero", not bad and n_ins >= 1, "; ".join(bad[:2]) if bad else
+               "Compound::pow inserts only entries whose power was compared non-zero (%d insertion(s) in the summary)" % n_ins, cp.site())
 
 
 def r2_r3_summaries(facts, rep):
